@@ -37,28 +37,29 @@ var ruleSets = map[string]func(a *Analyzer, r *Results){
 	"c20":    runC20,
 	"more":   runMore,
 	"r3":     runR3,
+	"prim":   runPrimitives,
 }
 
 // which rule sets each property needs
 var propSets = map[string][]string{
-	"C01": {"r3", "more", "ingest", "proof", "c06"},
-	"C02": {"r3", "c02", "c12", "c20", "c06"},
-	"C03": {"r3", "ingest", "c20", "c02", "c06"},
-	"C04": {"more", "ingest", "proof"},
+	"C01": {"prim", "r3", "more", "ingest", "proof", "c06"},
+	"C02": {"prim", "r3", "c02", "c12", "c20", "c06"},
+	"C03": {"prim", "r3", "ingest", "c20", "c02", "c06"},
+	"C04": {"prim", "more", "ingest", "proof"},
 	"C05": {"r3", "more", "ingest", "chan", "loops", "setters", "c19f", "c20", "registry", "proof"},
-	"C06": {"c06"},
-	"C07": {"r3", "more", "ingest", "proof"},
-	"C08": {"r3", "more", "ingest", "proof", "c17"},
-	"C09": {"r3", "more", "ingest", "c20", "proof"},
-	"C10": {"r3", "ingest", "setters", "c20"},
-	"C11": {"r3", "more", "ingest", "proof", "c20"},
+	"C06": {"prim", "c06"},
+	"C07": {"prim", "r3", "more", "ingest", "proof"},
+	"C08": {"prim", "r3", "more", "ingest", "proof", "c17"},
+	"C09": {"prim", "r3", "more", "ingest", "c20", "proof"},
+	"C10": {"prim", "r3", "ingest", "setters", "c20"},
+	"C11": {"prim", "r3", "more", "ingest", "proof", "c20"},
 	"C12": {"r3", "more", "c12", "c18", "locks", "ingest", "loops", "spawn", "chan", "registry", "proof"},
-	"C13": {"r3", "more", "ingest", "setters", "locks", "registry", "loops", "c17"},
-	"C14": {"r3", "more", "ingest", "chan", "sync", "loops", "registry", "shutdown", "timer"},
+	"C13": {"prim", "r3", "more", "ingest", "setters", "locks", "registry", "loops", "c17"},
+	"C14": {"prim", "r3", "more", "ingest", "chan", "sync", "loops", "registry", "shutdown", "timer"},
 	"C15": {"r3", "more", "ingest", "registry", "locks", "loops", "sync", "shutdown", "chan"},
 	"C16": {"r3", "more", "chan", "spawn", "shutdown", "timer", "c12", "registry", "ingest", "locks"},
-	"C17": {"r3", "more", "ingest", "c17", "c12"},
-	"C18": {"more", "c18", "ingest"},
+	"C17": {"r3", "more", "ingest", "c17", "c12", "setters"},
+	"C18": {"prim", "more", "c18", "ingest"},
 	"C19": {"r3", "more", "c19f", "timer", "chan", "loops", "ingest"},
 	"C20": {"r3", "more", "c20"},
 }
